@@ -30,6 +30,8 @@ def transfers(c):
             for fo in (False, True):
                 ops.append((size, {"op": "put", "size": size, "confirm": confirm, "callback": fo, "fo": fo, "fault": "none",
                                    "pos": 0, "code": 0, "prefetch": False}, False))
+        ops.append((size, {"op": "put", "size": size, "confirm": True, "callback": "log", "fo": True, "fault": "none",
+                           "pos": 0, "code": 0, "prefetch": False}, False))
         for prefetch in (True, False):
             for short in (False, True):
                 ops.append((size, {"op": "get", "size": size, "confirm": False, "callback": prefetch, "fo": short,
@@ -51,6 +53,12 @@ def transfers(c):
                     ops.append((size, {"op": "get", "size": size, "confirm": False, "callback": pos % 2 == 1,
                                        "fo": pos % 3 == 1, "fault": "read_failed", "pos": pos, "code": code,
                                        "prefetch": prefetch, "maxc": [0, 2, 0, 5][pos % 4]}, pos % 5 == 4))
+            # the progress callback appends to a second pipelined file on the same session: its statuses interleave
+            if pos >= n - 2 and n >= 3:
+                for confirm in (True, False):
+                    ops.append((size, {"op": "put", "size": size, "confirm": confirm, "callback": "log", "fo": pos % 2 == 0,
+                                       "fault": "write_rejected", "pos": pos, "code": CODES[pos % len(CODES)],
+                                       "prefetch": False}, False))
             # the server declares EOF at that chunk (conformance only)
             ops.append((size, {"op": "get", "size": size, "confirm": False, "callback": False, "fo": False, "fault": "read_eof",
                                "pos": pos, "code": 1, "prefetch": pos % 2 == 0, "maxc": 0}, False))
@@ -86,6 +94,19 @@ def pipelined_programs(c):
                     progs.append({"size": 1000, "short": False, "seed": c.seed * 77 + i, "prog": prog,
                                   "faults": {"write": {pos: code}}, "origin": "pipelined file, write #%d of %d rejected with code %d" % (pos, k, code)})
                     i += 1
+    # two pipelined files written alternately: the statuses of one interleave with the other's while it is closed
+    for k in (2, 4, 9):
+        for pos in sorted({0, k // 2, k - 1}):
+            for tail in (0, 2):
+                prog = []
+                for j in range(k):
+                    prog.append({"op": "write", "count": 1, "n": 100 + j, "pipelined": True})
+                    prog.append({"op": "writeB", "count": 1 + (j % 2), "n": 60})
+                prog += [{"op": "writeB", "count": tail, "n": 10}] if tail else []
+                prog.append({"op": "closeW"})
+                progs.append({"size": 1000, "short": False, "seed": c.seed * 77 + i, "prog": prog, "faults": {"write": {pos: 4}},
+                              "origin": "two pipelined files written alternately, write #%d of %d to the first rejected" % (pos, k)})
+                i += 1
     return progs
 
 
@@ -99,6 +120,11 @@ def run(c):
     c.mc("SftpClientProto", cfg_text(constants=lib.consts(dict(lib.WRITE_MODEL, FixOwner=False, FixClose=True)), invariants=inv),
          expect="NoHang|WriteErrorSurfaces",
          name="candidate repair 'close() drains _reqs' alone: after a stat in between, close() waits for a status that was dropped")
+    fm = dict(lib.WRITE_MODEL, MaxOps=5, Ops={"write", "writeB", "stat", "close"})
+    c.mc_holds("SftpClientProto", cfg_text(constants=lib.consts(fm), invariants=["NoHang", "WriteErrorSurfaces"]),
+               name="a second pipelined file on the session, repaired")
+    c.mc("SftpClientProto", cfg_text(constants=lib.consts(dict(fm, FinishCountsOnce=True)), invariants=["NoHang", "WriteErrorSurfaces"]),
+         expect="WriteErrorSurfaces", name="mutation: _finish_responses reads as many packets as the file had outstanding")
     progs = transfers(c) + pipelined_programs(c)
     lib.run_programs(c, progs, "t", {"P_silent_corruption", "P_write_error_lost", "P_blocked"})
     ntr = sum(1 for p in progs if p["origin"] == "transfer")
